@@ -50,14 +50,14 @@ CHECKS = {
    tech="deterministic simulation in a synctest bubble with gated actors; close-point and read-size fault injection; deadlock detection by durable blocking"),
  "C02": dict(cat="exploration", engine="coop", ref="4 C02",
    text="2-4 real goroutines run under the cooperative scheduler, one at a time, over a seeded corpus (harness-built Ethernet/Dot1Q/IPv4/IPv6/TCP/UDP/ICMP/GRE/ARP/DNS query and answer stacks, the 173 packets of gopacket's own layer tests (byte arrays, string literals, hex strings) with the decoder the test uses, DHCPv4 messages with every legal option layout, near-duplicates, truncations, bit flips): decoders compare every NewPacket result with a quiet-state reference decode of the same bytes and options (history and schedule independence), readers call the read-only accessors, String/Dump and VerifyChecksums on eager packets published by other goroutines and must get the answers recorded from a twin decode of the same bytes (the shared packet itself is handed over untouched, optionally after SetNetworkLayerForChecksum so that TCP/UDP checksums are really verified), and the input buffers must be unchanged; the same simulation is run in a -race build whose scheduler hand-off is invisible to the race detector, so any write to shared packet memory is reported although the goroutines never ran simultaneously; a third unit runs every simulated run in a process of its own with nothing decoded or rendered beforehand, built against the lock-instrumented copy of the repository, so that process-lifetime state (tables, caches) is first used by concurrent workers interleaved at its own lock sites, and compares their answers with each other and with a reference taken after the run.",
-   note="trusted: harness packet generator, signature renderer and hand-off (one atomic pointer per published packet); schedules are explored at API-call granularity, a torn intermediate value inside one call cannot be produced; the race detector keeps a bounded history per word",
+   note="trusted: harness packet generator, signature renderer and hand-off (one atomic pointer per published packet); schedules are explored at API calls, at every lock acquisition and release and at every sync/atomic operation of the instrumented copy (including between an atomic read and the atomic operation that consumes it); plain unsynchronised accesses are left to the race detector build; the race detector keeps a bounded history per word",
    tech="deterministic cooperative scheduling of real goroutines with a race-detector-invisible hand-off; reference-decode oracle"),
  "C04": dict(cat="exploration", engine="coop", ref="4 C04",
    text="2-4 real goroutines under the cooperative scheduler execute seeded sequences of decode (default, NoCopy, Pool, Pool+Lazy, Lazy), Dispose, producer-overwrites-its-buffer and hand-over to another goroutine, over inputs including lengths 0, 1, 1499, 1500, 1501, 3000; after every step every live copied packet must still render as when it was created, NoCopy/Pool decodes must equal the default decode, and no two undisposed pooled packets may share a pool block; one run in twenty holds a row of 20-220 pooled packets at once, gives all back and decodes as many again; garbage collections are a per-run fault; a -race build runs the same simulation.",
    note="trusted: as C02; which pool block a decode gets is decided by sync.Pool (per-P caches, random drops under -race) and is not owned, verdicts do not depend on it",
    tech="deterministic cooperative scheduling of real goroutines with a race-detector-invisible hand-off; ownership/aliasing oracle after every step"),
  "C12": dict(cat="exploration", engine="coop", ref="4 C12",
-   text="2-3 assembler goroutines plus an optional flusher share one real StreamPool (both packages) under the cooperative scheduler: exactly one goroutine runs, each parks at every API call boundary, every stream callback, in front of every lock acquisition and behind every lock release of the package (hand-placed verif-tagged hooks plus an instrumented scratch copy of the repository in which cmd/instrument puts a verifhook call in front of every x.Lock()/x.RLock() and behind every x.Unlock()/x.RUnlock() statement, so that locks a change adds or moves are covered too; the released worker tries the lock first so blocked workers are known and deadlock is a verdict), and the next runner is drawn from the tape (random pre-emption, PCT-style priorities or injected long stalls, chosen per run). The merged history is checked for panics, deadlock, a single live stream per connection, non-overlapping callbacks, the in-order delivery model for directions fed by one assembler (including completeness after the final flush-all when nothing is lost and no flush closes), cross-stream deliveries and exactly-once completion; connections closed by their FINs are re-opened on the same 4-tuple, behind a barrier in ordered runs and unordered in split runs; -race builds of both packages run the same simulation with the hand-off hidden from the race detector.",
+   text="2-3 assembler goroutines plus an optional flusher share one real StreamPool (both packages) under the cooperative scheduler: exactly one goroutine runs, each parks at every API call boundary, every stream callback, in front of every lock acquisition and behind every lock release of the package (hand-placed verif-tagged hooks plus an instrumented scratch copy of the repository in which cmd/instrument puts a verifhook call in front of every x.Lock()/x.RLock(), behind every x.Unlock()/x.RUnlock() statement and in front of every sync/atomic operation, so that locks a change adds or moves are covered too; the released worker tries the lock first so blocked workers are known and deadlock is a verdict; a read-lock attempt counts as blocked while another worker's write attempt on the same RWMutex is waiting, as in sync.RWMutex), and the next runner is drawn from the tape (random pre-emption, PCT-style priorities or injected long stalls, chosen per run). The merged history is checked for panics, deadlock, a single live stream per connection, non-overlapping callbacks, the in-order delivery model for directions fed by one assembler (including completeness after the final flush-all when nothing is lost and no flush closes), cross-stream deliveries and exactly-once completion; connections closed by their FINs are re-opened on the same 4-tuple, behind a barrier in ordered runs and unordered in split runs; -race builds of both packages run the same simulation with the hand-off hidden from the race detector.",
    note="trusted: scheduler, hooks (add-only lines in front of lock acquisitions), offline history checker; code between two yield points runs atomically; the race detector keeps a bounded history per word",
    tech="deterministic cooperative scheduling of real goroutines with lock-aware yield hooks and a race-detector-invisible hand-off; offline history oracle"),
 }
